@@ -7,7 +7,6 @@ Mark(n, comp, deps) == [name |-> n, comp |-> comp, deps |-> deps]
 ClassNamesOf(sys) == {sys.classes[i].name : i \in DOMAIN sys.classes}
 MarkedNames(sys) == {sys.marks[i].name : i \in DOMAIN sys.marks}
 ExtClasses(sys) == MarkedNames(sys) \cap (ClassNamesOf(sys) \cup {"u"})
-DeclaredDeps(sys, n) == UNION {{sys.marks[i].deps[j] : j \in DOMAIN sys.marks[i].deps} : i \in {k \in DOMAIN sys.marks : sys.marks[k].name = n}}
 
 \* ordering edges once the marks are applied: an unmarked class needs what its equation reads, a marked class what its mark
 \* declares; reading an (unmarked) state orders nothing
